@@ -45,6 +45,10 @@ class Stage:
     def sig(self, i):
         return 0
 
+    def bads(self):
+        """the calls this stage must refuse: [(label, callable(obj))]"""
+        return [("bad", self.bad)] if hasattr(self, "bad") else []
+
     # what earlier calls returned stays what it was: every rows() hands the arrays a call returned to hold(); intact()
     # says whether all arrays held since the last reset still have the bytes they were returned with
     def hold(self, *arrays):
@@ -295,6 +299,28 @@ class TausStage(Stage):
                 t(np.array([0.1, 0.2]), np.array([5.0, 8.0]))
 
 
+def _taus_bads(self):
+    """the stage's own full batch (same shape, same angles) with ONE event's energy outside the table, at every position
+    in turn: the call is refused after the events of the other angle classes may already have been evaluated"""
+    out = [("bad", self.bad)]
+    for p in range(self.k):
+        def f(t, p=p):
+            b = np.array([e[0] for e in self.ev]); le = np.array([e[1] for e in self.ev]); u = np.array([e[2] for e in self.ev])
+            le[p] = 12.5
+            if self.which == "tau_energy":
+                t.tau_energy(b, le, u)
+            elif self.which == "tau_exit_prob":
+                t.tau_exit_prob(b, le)
+            else:
+                with own.RngStub(fn=lambda i, n: np.full(n, 0.4)).installed():
+                    t(b, le)
+        out.append((f"energy outside the table at position {p}", f))
+    return out
+
+
+TausStage.bads = _taus_bads
+
+
 class AltDecStage(Stage):
     name = "EAS.altDec"
 
@@ -364,6 +390,37 @@ class EASStage(Stage):
         with own.null_progress(), dask.config.set(scheduler="synchronous"), np.errstate(all="ignore"):
             e(np.array([0.1, 0.2]), np.array([5.0]), np.array([1.0, 1.0]), np.zeros(2), np.zeros(2), cloudf=self.cloud)  # length mismatch
 
+    def bads(self):
+        """... and the stage's own full batch under an overcast sky whose lookup FAILS at one event's site (first, middle,
+        last): the batch call raises part-way, after other events were evaluated under that sky"""
+        import dask
+
+        out = [("bad", self.bad)]
+        for p in (0, self.k // 2, self.k - 1):
+            def f(e, p=p):
+                lat = self.ev[p][3]
+
+                def failing(la, lo):
+                    if float(la) == lat:
+                        raise ValueError("injected cloud-lookup failure")
+                    return np.float64(100.0)
+
+                cols = [np.array([ev[c] for ev in self.ev]) for c in range(5)]
+                with own.null_progress(), dask.config.set(scheduler="synchronous"), np.errstate(all="ignore"):
+                    e(*cols, cloudf=failing)
+            out.append((f"cloud lookup fails at event {p}", f))
+        return out
+
+
+class EASClearStage(EASStage):
+    """the same stage called with NO cloud callback: a sky an earlier, failed batch was given must not linger"""
+
+    name = "EAS.__call__ (real kernel, no cloud callback)"
+
+    def __init__(self, variant=0):
+        super().__init__(variant)
+        self.cloud = None
+
 
 class RadioStage(Stage):
     name = "EASRadio.__call__"
@@ -419,7 +476,7 @@ class RadioStage(Stage):
 
 
 def stages(tier):
-    out = [DiffuseGeom(), DiffuseGeomCall(), TargetGeom(), SpectrumStage(), TausStage("tau_energy"), TausStage("tau_exit_prob"), TausStage("__call__"), TausStage("tau_exit_prob", "1"), AltDecStage(), EASStage(), RadioStage()]
+    out = [DiffuseGeom(), DiffuseGeomCall(), TargetGeom(), SpectrumStage(), TausStage("tau_energy"), TausStage("tau_exit_prob"), TausStage("__call__"), TausStage("tau_exit_prob", "1"), AltDecStage(), EASStage(), EASClearStage(), RadioStage()]
     return out
 
 
@@ -482,29 +539,39 @@ def fresh_bases():
 
 def judge_after_error(st):
     """a call that the stage must reject, then ordinary calls on the SAME object: results as on a fresh object"""
-    if not hasattr(st, "bad"):
+    bads = st.bads()
+    if not bads:
         return [], 0
     base = [st.rows(st.make(), [i])[0][0] for i in range(st.k)]
     out = []
     n = 0
     full = list(range(st.k))
-    for seq in (["bad", full], [full, "bad", full], ["bad", "bad", full[::-1]]):
-        obj = st.make()
-        for step in seq:
-            n += 1
-            if step == "bad":
+    rot = full[1:] + full[:1]
+    for label, bad in bads:
+        # (the valid batches after the refused call have the refused batch's shape, in the same, the reversed and a
+        # rotated order: whatever the refused call left in a per-shape work array or on the object meets other events)
+        for seq in (["bad", full], [full, "bad", full], ["bad", "bad", full[::-1]], [full, "bad", full[::-1]], ["bad", rot]):
+            obj = st.make()
+            hit = False
+            for step in seq:
+                n += 1
+                if step == "bad":
+                    try:
+                        bad(obj)
+                    except Exception:
+                        pass
+                    continue
                 try:
-                    st.bad(obj)
-                except Exception:
-                    pass
-                continue
-            try:
-                r, ok = st.rows(obj, step)
-            except Exception as ex:
-                out.append(("usable_after_rejected_call", "after_error", [str(x) for x in seq], f"{type(ex).__name__}: {str(ex)[:80]}"))
-                break
-            if any(r[pos] != base[i] for pos, i in enumerate(step)):
-                out.append(("event_result_independent_of_context", "after_error", [str(x) for x in seq], "differs after a rejected call"))
+                    r, ok = st.rows(obj, step)
+                except Exception as ex:
+                    out.append(("usable_after_rejected_call", "after_error", [label] + [str(x) for x in seq], f"{type(ex).__name__}: {str(ex)[:80]}"))
+                    hit = True
+                    break
+                if any(r[pos] != base[i] for pos, i in enumerate(step)):
+                    out.append(("event_result_independent_of_context", "after_error", [label] + [str(x) for x in seq], "differs after a rejected call"))
+                    hit = True
+                    break
+            if hit:
                 break
     return out, n
 
@@ -607,6 +674,32 @@ def judge_stage(st, tier):
             h3 = history.canon(o2)
             if not (h1 == h2 == h3):
                 out.append(("repeat_leaves_state_unchanged", kind, batches, "object state hash changes between repeated identical calls"))
+    # what a call returns is the caller's: after every call of a context EVERY returned array is overwritten in place
+    # (the caller converts units, flags entries, re-uses the buffer), and the calls that follow must not notice - a result
+    # that is a view of a table, of a work array, of a cached column or of a default shows in the next call
+    for kind, batches in contexts(st.k, tier):
+        if len(batches) < 2:
+            continue  # (a single call has no successor to notice anything)
+        obj = st.make()
+        st.reset_held()
+        n += 1
+        for bi, idxs in enumerate(batches):
+            try:
+                r, ok = st.rows(obj, idxs)
+            except Exception as ex:
+                out.append(("results_belong_to_the_caller", kind, batches, f"{type(ex).__name__}: {str(ex)[:80]}"))
+                break
+            bad_pos = [pos for pos, i in enumerate(idxs) if r[pos] != base[i]]
+            if bad_pos:
+                out.append(("results_belong_to_the_caller", kind, batches, (bi, bad_pos[0])))
+                break
+            for a, _ in st.__dict__.get("_held", []):
+                if a.flags.writeable:
+                    try:
+                        a[...] = -7.25
+                    except Exception:
+                        pass
+            st.reset_held()
     # read-only inputs: no write may even be attempted; non-contiguous views: same results, the surrounding memory and
     # the view itself untouched
     for mode, clause in ((True, "inputs_never_written"), ("strided", "strided_inputs")):
